@@ -269,7 +269,7 @@ def run(ctx):
     ctx.cov["correspondence"] = {"distribution": dist, "streams_compared": ["timeout steps created per tick vs Tmo.step", "TimeoutLimit::parse vs parseLimit"]}
     ctx.cov["rule"] = ("1-3 rules (s/m/h/d) on an irq act or its step, tick spacings just below/at/above each limit, the act answered before/at/after; "
                        "non-trivial = at least one rule fired and the timed task was closed within the run; distinct by (model, ops)")
-    ctx.cov["clauses_proved"] = ["never early", "at most once per instance and rule key", "within one tick", "not after terminal", "firing keeps the task open"]
+    ctx.cov["clauses_proved"] = ["the monitor is sound for every observed history (once, never early, silent from the closing event on, due rules fire within one tick) and accepts every model history (K3)", "never early", "at most once per instance and rule key", "within one tick", "not after terminal", "firing keeps the task open"]
     ctx.cov["clauses_not_proved"] = ["the build puts each rule's steps under its own key (C20 tree theorem + differential)"]
 
 
